@@ -155,15 +155,22 @@ func newSearcher(c *cfg, r *ev.Run, what string) *searcher {
 		}
 	}
 	// future-height alphabet (sent while the receivers are still at height 0): a proposal of the Byzantine-only value
-	// for every round of height 1 (legitimate or forged, depending on who proposes there) and a prevote / precommit
-	// for it in round 0 of height 1
+	// for every round of height 1 (legitimate or forged, depending on who proposes there) and, for round 0 of height 1,
+	// a prevote / precommit for that value and for the value the round's proposer will propose if it is a correct
+	// validator (early votes that can meet a legitimate proposal once the receiver gets there)
 	if c.H >= 1 {
 		w, b := vid(c.byz), int8(c.byz)
 		for r := 0; r <= c.RH[1]; r++ {
 			s.future = append(s.future, msg{kind: kProp, round: rkOf(1, r), sender: b, val: w, vr: -1})
 		}
-		s.future = append(s.future, msg{kind: kPrevote, round: rkOf(1, 0), sender: b, val: w, vr: -1},
-			msg{kind: kPrecommit, round: rkOf(1, 0), sender: b, val: w, vr: -1})
+		fv := []vid{w}
+		if p := c.proposer(int(rkOf(1, 0))); p != c.byz {
+			fv = append(fv, vid(p))
+		}
+		for _, v := range fv {
+			s.future = append(s.future, msg{kind: kPrevote, round: rkOf(1, 0), sender: b, val: v, vr: -1},
+				msg{kind: kPrecommit, round: rkOf(1, 0), sender: b, val: v, vr: -1})
+		}
 	}
 	return s
 }
@@ -654,7 +661,7 @@ func (s *searcher) report(key, what string, g *gstate, trace []opt, slot int) {
 		paths[fmt.Sprint("validator ", s.c.correct[i])] = s.c.pathStrings(g.nd[i])
 	}
 	s.r.Violate(key, map[string]any{
-		"what": what, "part": s.what, "config": s.c.name, "powers": s.c.powers, "byzantine": s.c.byz, "round_bound": s.c.R, "round_bounds_per_height": s.c.RH,
+		"what": what, "part": s.what, "config": s.c.name, "powers": s.c.powers, "powers_next_height": s.c.powersH[1], "byzantine": s.c.byz, "round_bound": s.c.R, "round_bounds_per_height": s.c.RH,
 		"k": s.k, "validator": s.c.correct[slot], "deviations_from_benign_schedule": tr,
 		"inputs_per_validator_(equivalent_representative)": paths,
 	})
